@@ -206,7 +206,7 @@ impl Property for C02 {
     }
     fn budget(&self, tier: Tier) -> Budget {
         match tier {
-            Tier::Quick => Budget { cases: 6000, shards: 16, min_len: 24, max_len: 280 },
+            Tier::Quick => Budget { cases: 18_000, shards: 16, min_len: 24, max_len: 280 },
             Tier::Thorough => Budget { cases: 150_000, shards: 16, min_len: 24, max_len: 280 },
         }
     }
